@@ -1468,6 +1468,29 @@ func writeEntries(b *strings.Builder, root string, files []string, parsed map[st
 	b.WriteString("Definition gen_tsd_fields : list string := " + strList(sliceFields(parsed, "TimeSeriesData")) + ".\n")
 	b.WriteString("Definition gen_spl_consumed : list string := " + strList(consS) + ".\n")
 	b.WriteString("Definition gen_tsd_consumed : list string := " + strList(consT) + ".\n")
+	// every function under writer/ that calls recover(), and who defers it
+	var recs []string
+	for _, p := range files {
+		rel, _ := filepath.Rel(root, p)
+		for _, d := range parsed[p].Decls {
+			fd, ok := d.(*ast.FuncDecl)
+			if !ok || fd.Body == nil || !containsRecover(fd.Body) {
+				continue
+			}
+			users := 0
+			for _, p2 := range files {
+				ast.Inspect(parsed[p2], func(n ast.Node) bool {
+					if ds, ok := n.(*ast.DeferStmt); ok && calleeName(ds.Call.Fun) == fd.Name.Name {
+						users++
+					}
+					return true
+				})
+			}
+			recs = append(recs, fmt.Sprintf("(%s, %s, %d)", coqStr(rel), coqStr(recvName(fd)), users))
+		}
+	}
+	b.WriteString("(* recover scopes: (file, function that calls recover(), number of `defer` statements naming it) *)\n")
+	b.WriteString("Definition gen_recover_scopes : list (string * string * Z) := [" + strings.Join(recs, "; ") + "].\n")
 	b.WriteString("(* every call of onEntries: (file, function, singletons | other, the four slice arguments) *)\n")
 	b.WriteString("Definition gen_on_entries_calls : list (string * string * string * string) := [\n  " + strings.Join(calls, ";\n  ") + "].\n")
 }
